@@ -68,7 +68,7 @@ fn oracle_path() -> PathBuf {
 fn parent(args: &Args) -> i32 {
     let mut report = new_report(args);
     let tier = args.tier;
-    let n_hist = args.get_u64("histories", tier.pick(6, 40));
+    let n_hist = args.get_u64("histories", tier.pick(6, 80));
     let procs = args.get_u64("procs", tier.pick(6, 8)).min(n_hist).max(1);
     let scratch = Scratch::new("vecon");
     let exe = std::env::current_exe().expect("current exe");
@@ -162,7 +162,7 @@ fn parent(args: &Args) -> i32 {
 
 fn requirements(r: &mut Report, tier: Tier) {
     let q = |a: u64, b: u64| tier.pick(a, b);
-    r.require("histories_judged", q(3, 30));
+    r.require("histories_judged", q(5, 60));
     r.require("blocks_judged", q(1_000, 30_000));
     r.require("checked.cellbase.amount", q(800, 25_000));
     r.require("checked.dao.recurrence", q(1_000, 30_000));
